@@ -45,7 +45,7 @@ fn udp_config(uring: bool, max_response_peers: usize, max_scrape_torrents: u8, v
     let mut t = TrackerChild::spawn("udp", cfg.clone(), &[]);
     if !t.wait_ready(30) {
         // refused at start-up: acceptable outcome
-        let line = t.line_with("RUN-RETURNED").unwrap_or_default();
+        let line = t.line_with_wait("RUN-RETURNED", 3000).unwrap_or_default();
         if t.exited().is_some() && line.contains("RUN-RETURNED Err") {
             return (1, f, format!("refused: {}", line));
         }
@@ -136,7 +136,7 @@ fn http_config(max_peers: usize, max_scrape_torrents: usize, v4: bool, default_c
     let cfg = if default_cfg { json!({}) } else { json!({"protocol": {"max_peers": max_peers, "max_scrape_torrents": max_scrape_torrents}}) };
     let mut t = TrackerChild::spawn("http", cfg.clone(), &[]);
     if !t.wait_ready(30) {
-        let line = t.line_with("RUN-RETURNED").unwrap_or_default();
+        let line = t.line_with_wait("RUN-RETURNED", 3000).unwrap_or_default();
         if t.exited().is_some() && line.contains("RUN-RETURNED Err") {
             return (1, f, format!("refused: {}", line));
         }
